@@ -77,6 +77,11 @@ def gen(seed: int, tier: str, focus: str) -> dict[str, Any]:
         ops.append({"t": tt, "op": k})
         if k == "gw_crash":
             ops.append({"t": round(tt + rng.choice([0.3, 2.0, 8.0, 30.0]), 6), "op": "gw_restart"})
+    if not clean and rng.random() < 0.3:
+        # slow / stalled node: the process under test makes no progress for a while (its timers and everything addressed
+        # to it wait, the gateway and the bus go on)
+        for _ in range(rng.choice([1, 1, 2])):
+            ops.append({"t": round(rng.uniform(0.05, horizon), 6), "op": "stall", "d": rng.choice([0.3, 1.2, 2.5, 4.0, 11.0])})
     gws: dict[str, Any] = {}
     policy = None
     if not clean:
@@ -301,6 +306,10 @@ def run(plan: dict[str, Any]):
             elif k == "srv_disconnect":
                 if gw.server_disconnect(client_cid()) is not None:
                     R.extra_faults["srv_disconnect"] += 1
+            elif k == "stall":
+                loop.stall(op["d"])
+                R.extra_faults["client_stall"] += 1
+                R.record("stall", "client", op["d"])
             elif k == "gw_crash":
                 gw.crash()
                 R.extra_faults["gw_crash"] += 1
@@ -364,6 +373,7 @@ def reference_passed_up(R, obs) -> list[tuple[str, int, int]]:
     expected = 0
     tcp_buf: dict[Any, bytes] = {}
     client_cid = None
+    awaiting = False
     obs["stale_channel_frames_passed_up"] = 0
 
     def classify(cemi: bytes, n: int):
@@ -384,10 +394,12 @@ def reference_passed_up(R, obs) -> list[tuple[str, int, int]]:
             sp = W.split(bytes.fromhex(detail))
             if sp and sp[0] == W.CONNECT_REQ:
                 expected = 0
+                awaiting = True
         elif kind == "udp_in" and f">{client_ip}:" in str(actor):
             sp = W.split(bytes.fromhex(detail))
-            if sp and sp[0] == W.CONNECT_RES and len(sp[1]) >= 2 and sp[1][1] == 0:
-                client_cid = sp[1][0]
+            if sp and sp[0] == W.CONNECT_RES and len(sp[1]) >= 2 and sp[1][1] == 0 and awaiting:
+                client_cid = sp[1][0]      # the first successful answer to the pending ConnectRequest is the one taken
+                awaiting = False
             if sp and sp[0] == W.TUNNEL_REQ and len(sp[1]) >= 4:
                 seq = sp[1][2]
                 if seq == expected:
